@@ -77,7 +77,7 @@ Definition submitted_before (cfg : config) (s : state) (g : N) (tp : tpart) (m1 
 
 (* every copy of an earlier batch precedes every copy of a later one *)
 Definition stmt_C07_order : Prop :=
-  forall cfg ls s, cfg_ok cfg -> runs cfg ls s -> s_late s = false ->
+  forall cfg ls s, cfg_ok cfg -> runs cfg ls s ->
   forall g tp m1 m2, submitted_before cfg s g tp m1 m2 ->
     (forall a, In a (s_journal s) -> ~ (In m1 (a_msgs a) /\ In m2 (a_msgs a))) ->
     forall i j, nth_error (log_of s tp) i = Some m1 -> nth_error (log_of s tp) j = Some m2 -> i < j.
@@ -89,14 +89,13 @@ Definition stmt_C07_batch_internal_order : Prop :=
     forall i j, nth_error (a_msgs a) i = Some m1 -> nth_error (a_msgs a) j = Some m2 -> i < j.
 
 (* all attempts of batch k of a partition writer precede all attempts of batch k+1; the
-   attempts of one batch carry the same records; without the late-Assign interleaving (F3)
-   a topic-partition has one partition writer *)
+   attempts of one batch carry the same records; a topic-partition has one partition writer *)
 Definition stmt_C07_retries_contiguous : Prop :=
   forall cfg ls s, runs cfg ls s ->
   forall i j a b, nth_error (s_journal s) i = Some a -> nth_error (s_journal s) j = Some b ->
     (a_pw a = a_pw b -> a_k a < a_k b -> i < j) /\
     (a_pw a = a_pw b -> a_k a = a_k b -> a_msgs a = a_msgs b /\ a_tp a = a_tp b) /\
-    (s_late s = false -> a_tp a = a_tp b -> a_pw a = a_pw b).
+    (a_tp a = a_tp b -> a_pw a = a_pw b).
 
 (* ------------------------------------------------------------------ C01 *)
 Definition acked_attempt (cfg : config) (s : state) (m : msg) : Prop :=
@@ -171,25 +170,21 @@ Definition awaiters (s : state) : nat := length (flat_map pw_await (s_pws s)).
 Definition stmt_C09_w_waitgroup_exact : Prop :=
   forall cfg ls s, runs cfg ls s -> s_wg s = active_calls s + alive_senders s + awaiters s.
 
-(* full strength: refuted by F3 *)
+(* Close is never stuck: whenever it waits, some non-environment step is enabled *)
 Definition stmt_C09_w_close_no_stuck : Prop :=
-  forall cfg ls s, cfg_ok cfg -> runs cfg ls s -> ~ stuck cfg s.
-
-Definition stmt_C09_w_close_refuted : Prop :=
-  exists cfg ls s, cfg_ok cfg /\ runs cfg ls s /\ stuck cfg s.
-
-(* without the late-Assign interleaving Close is never stuck *)
-Definition stmt_C09_w_close_no_stuck_partial : Prop :=
-  forall cfg ls s, runs cfg ls s -> s_late s = false -> s_close s = ClWaiting ->
+  forall cfg ls s, runs cfg ls s -> s_close s = ClWaiting ->
     exists l, is_env l = false /\ step cfg s l <> None.
+
+Definition stmt_C09_w_close_never_stuck : Prop :=
+  forall cfg ls s, runs cfg ls s -> ~ stuck cfg s.
 
 Definition stmt_stuckb_sound : Prop :=
   forall cfg s, stuckb cfg s = true -> stuck cfg s.
 
-(* when Close has returned (no late Assign): nothing is pending, every call has returned,
+(* when Close has returned: nothing is pending, every call has returned,
    every message of an accepted call was completed *)
 Definition stmt_C09_w_close_post : Prop :=
-  forall cfg ls s, runs cfg ls s -> s_late s = false -> s_close s = ClReturned ->
+  forall cfg ls s, runs cfg ls s -> s_close s = ClReturned ->
     (forall p pw, nth_error (s_pws s) p = Some pw ->
        pw_curr pw = None /\ pw_queue pw = [] /\ pw_snd pw = None /\ pw_alive pw = false /\ pw_await pw = []) /\
     (forall c cl, nth_error (s_calls s) c = Some cl -> returned cl = true) /\
